@@ -28,6 +28,7 @@ M = [
     # (rate-limit-slot-from-now / rate-limit-no-idle-reset were dropped: since repair 6ea84d6 an element also keeps the interval to
     # the time its predecessor actually went through, which makes slips in the slot arithmetic unobservable)
     ('rate-limit-does-not-wait-for-predecessor', 'streamz/core.py', "            if before is not None and not before.done():\n                yield before\n", "", ['C13']),
+    ('rate-limit-interval-rounded-to-ms', 'streamz/core.py', "        self.interval = convert_interval(interval)\n        self.next = 0\n        self._last = None", "        self.interval = round(convert_interval(interval), 3)\n        self.next = 0\n        self._last = None", ['C13']),
     ('rate-limit-no-late-check', 'streamz/core.py', "                if late > 0:\n                    yield gen.sleep(late)\n", "                pass\n", ['C13']),
     ('latest-no-clear', 'streamz/core.py', "            [x] = self.next\n            self.next = []\n", "            [x] = self.next\n", ['C14']),
     ('kafka-commit-offset', 'streamz/sources.py', "            _tp = ck.TopicPartition(topic, part_no, offset + 1)", "            _tp = ck.TopicPartition(topic, part_no, offset)", ['C09']),
